@@ -120,7 +120,7 @@ theorem wsAllLeafX (S : WStable P) : LeafX (WsAll P) where
   setClosed := by unfold setClosed; ws_same
   setStopping := by unfold setStopping; ws_same
   setRestarting := by unfold setRestarting; ws_same
-  clearRestarting := by unfold clearRestarting; ws_same
+  clearRestarting := fun b => by unfold clearRestarting; ws_same
   setLoopStop := fun b => by unfold setLoopStop; ws_same
   setSocketEvent := fun b => by unfold setSocketEvent; ws_same
   setSockReady := fun b => by unfold setSockReady; ws_same
